@@ -407,7 +407,7 @@ def analyse(ctx, exe, c, rec):
         return dict(status="notjudged:harness-no-result", issues=[], info={})
     P = parse_case(rec)
     end = rec["end"]
-    info = dict(ops=len(c["ops"]), nerr=0, nwarn=0, ret=[], stop=0)
+    info = dict(ops=len(c["ops"]), nerr=0, nwarn=0, ret=[], stop=0, compared=0, reload_compared=0)
     issues = []
     if P["L0"] is None or P["L0"][0] != 0 or P["L0"][1] != "-":
         if P["L0"] is None and end["status"] != "timeout":
@@ -497,6 +497,7 @@ def analyse(ctx, exe, c, rec):
         if mode == "load-failed" and extra:
             issues.append(("model", "self-test-after-failed-load", f"{o['kind']}: events of a self-test run although reading the database recorded errors"))
         v = o["views"]
+        info["compared"] += 1
         errstr, warnstr = v["errstr"][0], v["warnstr"][0]
         if on and errstr != pv["errstr"]:
             real = lines_of(unhx(errstr))
@@ -528,6 +529,7 @@ def analyse(ctx, exe, c, rec):
     # ---- reload + probe (C07 oracle)
     if not died:
         rl, rlb = P["RL"], P["RLB"]
+        info["reload_compared"] = int(bool(P["probe"]) and P["probe"][0] in ("same", "diff"))
         if rl[1] != "-":
             issues.append(("d", "reload-exception", "LoadDatabase after the judged call let an exception escape: " + txt(unhx(rl[1]), 200)))
         elif rl[0] != 0 and rlb and rlb[0] == 0:
@@ -710,7 +712,7 @@ def run(ctx):
     ok = ctx.prove(["PhreeqcVerif.Properties.C08"])
     exe, plain = build(ctx)
     timeout = ctx.n(20, 30)
-    n = ctx.n(420, 16000)
+    n = ctx.n(420, 12000)
     if not ok:
         n = max(n, 3000)
     seeds = F.seeds()
@@ -718,7 +720,8 @@ def run(ctx):
     ctx.log(f"{len(cases)} cases ({len(seeds)} seed inputs), ASan+UBSan harness {exe.name}")
     fam, status, cls_count, seen, withheld = {}, {}, {}, {}, {}
     evals = nontrivial = 0
-    stats = dict(error_events=0, warning_events=0, calls_with_stop=0, nonzero_returns=0, zero_returns=0, timeouts_rerun_on_plain_build=0, timeouts_confirmed_on_plain_build=0)
+    stats = dict(error_events=0, warning_events=0, calls_with_stop=0, nonzero_returns=0, zero_returns=0, timeouts_rerun_on_plain_build=0, timeouts_confirmed_on_plain_build=0,
+                 calls_compared_with_model=0, reload_probes_compared_with_new_instance=0)
     mut_kinds = {}
     chunk = 960
     for base in range(0, len(cases), chunk):
@@ -738,6 +741,8 @@ def run(ctx):
                 stats["error_events"] += inf.get("nerr", 0)
                 stats["warning_events"] += inf.get("nwarn", 0)
                 stats["calls_with_stop"] += inf.get("stop", 0)
+                stats["calls_compared_with_model"] += inf.get("compared", 0)
+                stats["reload_probes_compared_with_new_instance"] += inf.get("reload_compared", 0)
                 stats["nonzero_returns"] += sum(1 for r in inf.get("ret", []) if r != 0)
                 stats["zero_returns"] += sum(1 for r in inf.get("ret", []) if r == 0)
                 if inf.get("nerr", 0) or inf.get("nwarn", 0):
